@@ -434,7 +434,14 @@ pub fn drive_isolated(case: &Case) -> Driven {
             return Driven::Died(st.and_then(|s| s.signal()));
         }
         // after a hang has been confirmed once, later cases (mostly shrink steps of it) are given 5 s
-        let limit = if HANG_CONFIRMED.load(std::sync::atomic::Ordering::Relaxed) { 5 } else { 60 };
+        // (the recorded unbounded `import` recursion is given 15 s: it only grows the stack)
+        let limit = if HANG_CONFIRMED.load(std::sync::atomic::Ordering::Relaxed) {
+            5
+        } else if case.kind == "source" && case.input.contains("import") {
+            15
+        } else {
+            60
+        };
         match worker.rx.recv_timeout(std::time::Duration::from_secs(limit)) {
             Ok(resp) => {
                 let v: Value = serde_json::from_str(&resp).unwrap_or(Value::Null);
@@ -490,6 +497,13 @@ pub fn check(case: &Case, known: &Known) -> Outcome {
             }
             let minus_run = case.input.split(|c: char| c != '-' && c != ' ' && c != '!').map(|r| r.chars().filter(|c| *c != ' ').count()).max().unwrap_or(0);
             let shallow = case.kind == "source" && case.input.len() <= 4096 && max_depth <= 12 && minus_run <= 12 && case.input.matches("case").count() <= 8;
+            // the recorded `import` recursion (C12-abort-source) exhausts the stack; with the
+            // worker's unlimited stack that takes longer than the watchdog allows
+            if case.kind == "source" && case.input.contains("import") && known.is_open("C12-abort-source") {
+                let mut o = Outcome::pass();
+                o.verdict = Verdict::Known("C12-abort-source".into(), "self-referential import: unbounded recursion (time-out under an unlimited stack)".into());
+                return o;
+            }
             let fail = |c: &Case| {
                 Outcome::fail(
                     "no result within 2 x 60 s for a short, shallow source (a stage does not terminate)",
